@@ -44,7 +44,7 @@ var qeProfiles = map[string]*qeProfile{
 		rule: "generated datasets (1-3 backends, overlapping mixed-case/dotted/non-ASCII names, lists, ids beyond 8 bit, optional columns per flavour) x generated GET requests with filter trees (every operator x column type, And/Or/Negate nesting up to depth 4). non-trivial: the filter selects a proper, non-empty subset of the rows or uses a group/negation; distinct by request text+dataset"},
 	"c05": {name: "c05", pGrouped: 45, pFilter: 50, pStats: 100, pSort: 0, pLimit: 0, pAuth: 10, pBackends: 10, pWrapped: 10, maxDepth: 2, maxBackends: 4, maxHosts: 8, perDataset: 12, tables: []string{"hosts", "services", "services", "comments", "hostgroups"},
 		rule: "generated Stats programs (1-4 counters/aggregates, nested StatsAnd/StatsOr/StatsNegate, optional group-by Columns) over 1-4 backends"},
-	"c06": {name: "c06", pIndexLeaf: 40, pFilter: 40, pStats: 0, pSort: 80, pLimit: 90, pAuth: 0, pBackends: 10, pWrapped: 50, maxDepth: 1, maxBackends: 4, maxHosts: 8, perDataset: 12, tables: []string{"hosts", "hosts", "services", "services", "comments", "hostgroups", "contacts"},
+	"c06": {name: "c06", pIndexLeaf: 40, pFilter: 40, pStats: 0, pSort: 80, pLimit: 90, pAuth: 10, pBackends: 10, pWrapped: 50, maxDepth: 1, maxBackends: 4, maxHosts: 8, perDataset: 12, tables: []string{"hosts", "hosts", "services", "services", "comments", "hostgroups", "contacts"},
 		rule: "generated Sort (0-3 keys asc/desc incl. custom variables and keys outside Columns, default order), Limit, Offset combinations over 1-4 backends with interleaving names, json and wrapped_json"},
 	"c07": {name: "c07", pIndexLeaf: 50, pGrouped: 50, pFilter: 100, pStats: 30, pSort: 10, pLimit: 10, pAuth: 0, pBackends: 0, pWrapped: 20, maxDepth: 3, maxBackends: 2, maxHosts: 8, perDataset: 10, tables: []string{"hosts", "hosts", "services", "services", "services", "comments", "hostgroups", "contacts"}, bothModes: true,
 		rule: "every generated request text is parsed in both modes (ParseDefault, ParseOptimize) and evaluated on the same store; indexable shapes (name/host_name/groups/host_groups/primary key with = =~ ~ ~~) mixed with other terms, regexes with leading/trailing .* and ^...$"},
